@@ -5,6 +5,7 @@ import json, itertools, struct, os, re
 from decimal import Decimal, getcontext
 from fractions import Fraction
 from vlib import *
+from props import layerb
 
 HDR = ("From Coq Require Import ZArith List Bool.\nImport ListNotations.\n"
        "From L21 Require Import Geom.Transform Geom.TransformSpec Geom.TransformCheck.\nOpen Scope Z_scope.\n")
@@ -444,9 +445,17 @@ def run(chk, replay=None):
             chk.broken.append("static gate: Geom/TransformFloatExact.v depends on axioms")
             chk.proof_ok = False
             chk.cov["discharged"] = 0
+    # Layer B: the dyadic float model of Geom/Transform.v part (B) is Flocq's IEEE-754 binary64 arithmetic
+    # (Properties/C12B.v). Its theorems depend on the real-number axioms of the standard library; Properties/C12.v must stay closed.
+    layerb_ok = layerb.flocq_leg(chk, "Properties/C12B.v", "Properties.C12B")
     chk.assumptions += [
         "libm sin/cos are not modelled: the ring-level theorems hold for EVERY pair (c, s); the float-level theorems are about the eight (sin, cos) bit patterns in coq/Gen/LibmGen.v, read off the repository's own Transform::rotate / from_instance on every run",
-        "float `*`, `+` round to nearest even with no excess precision and no fused multiply-add (Rust on x86-64/aarch64); the sign of zero is not modelled (it cannot reach an integer coordinate); infinities and NaN are outside the model",
+        ("the dyadic float model IS IEEE-754 binary64 (theorems of Properties/C12B.v against Flocq 4.1.0: round_flt = round-to-nearest-even to binary64, fmul/fadd/fneg/f_of_int = Bmult/Bplus/Bopp/binary_normalize, "
+         "f_round = nearbyint ties-away then trunc, model outside its domain exactly on IEEE overflow, and the drift theorems restated about Flocq's own computation chain_image_b; axioms: the standard library's classical reals). "
+         "What remains assumed: Rust's f64 `*`, `+`, `as f64`, `round`, `as isize` are these IEEE operations, with no excess precision and no fused multiply-add (Rust on x86-64/aarch64); "
+         "the sign of zero is not modelled (it cannot reach an integer coordinate); infinities and NaN are outside the model")
+        if layerb_ok else
+        "float `*`, `+` round to nearest even with no excess precision and no fused multiply-add (Rust on x86-64/aarch64); the sign of zero is not modelled (it cannot reach an integer coordinate); infinities and NaN are outside the model (layer B leg not green)",
         "hierarchies are unfolded into trees: Ptr sharing is invisible to flatten; cyclic hierarchies (non-terminating in the implementation) are outside the model; RwLock poisoning is not modelled",
     ]
     chk.notes.append("general angles (30, 45, 17.5 degrees, random): ring-level theorems apply; in the correspondence the implementation is compared with the float model fed with the implementation's own sin/cos doubles (exact), "
